@@ -17,6 +17,7 @@ EXPLANATION = (
     "only to the subscriber slot; (index-travels) in every batch implementation the index that selects the output slot "
     "travels with the request it was enumerated with. Not decided: enumeration of response orders/interleavings as such "
     "(the rules are order-independent); ids are distinct until the 64-bit counter wraps."
+    ' (deliver-by-key, completeness) from the point where a response loop has a decoded response every path to the next read consults the pending table (notifies excepted); (index-travels, completeness) what a batch function returns on every path is the vector stored by request index, or an order-preserving buffered/join_all pipeline over the requests.'
 )
 ASSUMPTIONS = ["HashMap insert/remove, mpsc and oneshot channels have their documented semantics", "AtomicU64::fetch_add is atomic"]
 
